@@ -129,6 +129,12 @@ def norm(node):
     return NormStr(" ".join(ast.unparse(node).split()), node)
 
 
+def same_texts(got, wanted):
+    """Set equality of normalised texts decided with NormStr's canonical equality (a plain set() would hash the raw text)."""
+    got, wanted = list(got), list(wanted)
+    return len(got) == len(wanted) and all(any(g == w for g in got) for w in wanted) and all(any(g == w for w in wanted) for g in got)
+
+
 def dotted(node):
     """a.b.c -> 'a.b.c' for Name/Attribute chains, else None."""
     parts = []
